@@ -69,7 +69,7 @@ func (t *fnTr) assign(id *ast.Ident, v fnVal, k func() string) string {
 	}
 	obj := t.local(id)
 	ty, ok := fnClassify(obj.Type())
-	if !ok && obj.Type() == types.Typ[types.Invalid] && v.ty.k == fkBytes && t.vars[obj] == nil {
+	if !ok && obj.Type() == types.Typ[types.Invalid] && (v.ty.k == fkBytes || (v.ty.k == fkInt && v.ty.ity != "")) && t.vars[obj] == nil {
 		// the result of a function of a package outside go-bt (bytes.Join): go/types has no type for the variable
 		ty, ok = v.ty, true
 	}
@@ -193,6 +193,9 @@ func (t *fnTr) stmt(s ast.Stmt, k func() string) string {
 		tmp := t.temp()
 		return "bind (" + r.s + ") (fun " + tmp + " => " + t.ret(t.full(tmp)) + ")"
 	case *ast.AssignStmt:
+		if out, ok := t.methValCall(x, k); ok {
+			return out
+		}
 		if len(x.Lhs) > 1 && len(x.Rhs) == 1 {
 			if out, ok := t.quoteFee(x, k); ok {
 				return out
@@ -275,7 +278,7 @@ func (t *fnTr) stmt(s ast.Stmt, k func() string) string {
 		if !ok {
 			t.fail(s, "variable of unsupported type")
 		}
-		zero := map[fnKind]string{fkBool: "false", fkErr: "false", fkInt: "0", fkBytes: "[]", fkInts: "[]"}[ty.k]
+		zero := map[fnKind]string{fkBool: "false", fkErr: "false", fkInt: "0", fkBytes: "[]", fkInts: "[]", fkStack: "[]"}[ty.k]
 		return t.assign(vs.Names[0], fnVal{s: zero, pure: true, ty: ty}, k)
 	case *ast.ExprStmt:
 		c, ok := x.X.(*ast.CallExpr)
@@ -612,7 +615,7 @@ func (t *fnTr) rangeStmt(x *ast.RangeStmt, k func() string) string {
 		t.fail(x, "range without := ")
 	}
 	xs := t.expr(x.X)
-	if xs.ty.k != fkBytes && xs.ty.k != fkInts && xs.ty.k != fkPtrs {
+	if xs.ty.k != fkBytes && xs.ty.k != fkInts && xs.ty.k != fkPtrs && xs.ty.k != fkStack {
 		t.fail(x, "range over something other than a slice")
 	}
 	state := t.assigned(x.Body)
@@ -650,6 +653,9 @@ func (t *fnTr) rangeOver(x *ast.RangeStmt, xs fnVal, state []interface{}, k func
 			t.vars[t.local(id)] = &fnVar{name: name, ty: fnType{k: fkInt, ity: xs.ty.ity}}
 			if xs.ty.k == fkPtrs {
 				t.vars[t.local(id)].ty = fnType{k: fkPtr, sname: xs.ty.sname}
+			}
+			if xs.ty.k == fkStack { // the items of a [][]byte (funcs_script.go)
+				t.vars[t.local(id)].ty = fnType{k: fkBytes, ity: "U8"}
 			}
 			if xs.ty.k == fkBytes {
 				rawName = t.temp()
@@ -941,7 +947,7 @@ func (t *fnTr) function(fd *ast.FuncDecl) string {
 	if len(body) > 200000 {
 		t.fail(fd, "the translation is too large (%d characters)", len(body))
 	}
-	return "Definition " + t.spec.Coq + " " + strings.Join(params, " ") + " : M " + fnParen(rt) + " :=" + "\n  " + namedInit + body + "."
+	return "Definition " + t.spec.Coq + " " + strings.Join(params, " ") + t.assumeParams() + " : M " + fnParen(rt) + " :=" + "\n  " + namedInit + body + "."
 }
 
 // full: the value a return statement yields: the current values of the state fields, then the results.
